@@ -16,7 +16,10 @@ import (
 	"sync"
 	"time"
 
+	"database/sql"
+
 	"github.com/prometheus/client_golang/prometheus"
+	"github.com/resonatehq/resonate/internal/app/subsystems/aio/store/postgres"
 	"github.com/resonatehq/resonate/internal/app/subsystems/aio/store/sqlite"
 	"github.com/resonatehq/resonate/internal/kernel/bus"
 	"github.com/resonatehq/resonate/internal/kernel/t_aio"
@@ -225,14 +228,17 @@ func randCreateTask(r *rng) *t_aio.CreateTaskCommand {
 
 // block: family "commit" - at some steps a second connection holds a read transaction on the database file while the
 // batch runs, so that the store's COMMIT cannot get its lock and fails after the (short) busy timeout
-func runStoreTrace(seed uint64, dir string, steps int, block bool) (tr *storeTrace) {
+func runStoreTrace(seed uint64, dir string, steps int, block bool, pg bool) (tr *storeTrace) {
 	r := &rng{s: seed}
 	conflict := seed%4 == 3
 	tr = &storeTrace{Family: "store", Seed: seed, Stats: map[string]int{}}
 	if block {
 		tr.Family = "commit"
 	}
-	path := filepath.Join(dir, fmt.Sprintf("s%d_%v.db", seed, block))
+	if pg {
+		tr.Family = "pgstore"
+	}
+	path := filepath.Join(dir, fmt.Sprintf("s%d_%v_%v.db", seed, block, pg))
 	_ = os.Remove(path)
 	defer func() {
 		if e := recover(); e != nil {
@@ -256,6 +262,21 @@ func runStoreTrace(seed uint64, dir string, steps int, block bool) (tr *storeTra
 		return tr
 	}
 	defer func() { _ = st.Stop() }()
+	// family pgstore: the tables are the SQLite ones (created by the SQLite store above); the batches are executed by
+	// the production Postgres store worker through the dialect shim
+	type processor interface {
+		Process([]*bus.SQE[t_aio.Submission, t_aio.Completion]) []*bus.CQE[t_aio.Submission, t_aio.Completion]
+	}
+	var exec processor = st
+	if pg {
+		pdb, err := sql.Open("pgshim", path)
+		if err != nil {
+			tr.Error = err.Error()
+			return tr
+		}
+		defer pdb.Close()
+		exec = postgres.VerifWorker(pdb, m)
+	}
 	ob, err := newObserver(path)
 	if err != nil {
 		tr.Error = err.Error()
@@ -270,10 +291,19 @@ func runStoreTrace(seed uint64, dir string, steps int, block bool) (tr *storeTra
 			ncmd := 1 + r.intn(3)
 			cmds := []*t_aio.Command{}
 			for j := 0; j < ncmd; j++ {
-				if conflict {
-					cmds = append(cmds, conflictCommand(r, tr.Stats))
-				} else {
-					cmds = append(cmds, randCommand(r, tr.Stats))
+				for {
+					var c *t_aio.Command
+					if conflict {
+						c = conflictCommand(r, tr.Stats)
+					} else {
+						c = randCommand(r, tr.Stats)
+					}
+					// the three statements that differ structurally between the back ends are not sent through the shim
+					if pg && (c.Kind == t_aio.SearchPromises || c.Kind == t_aio.SearchSchedules || c.Kind == t_aio.ReadEnqueueableTasks) {
+						continue
+					}
+					cmds = append(cmds, c)
+					break
 				}
 			}
 			tx := &t_aio.Transaction{Commands: cmds}
@@ -289,7 +319,7 @@ func runStoreTrace(seed uint64, dir string, steps int, block bool) (tr *storeTra
 				return tr
 			}
 		}
-		cqes := st.Process(sqes)
+		cqes := exec.Process(sqes)
 		if release != nil {
 			release()
 		}
@@ -347,10 +377,11 @@ func runStoreTrace(seed uint64, dir string, steps int, block bool) (tr *storeTra
 	return tr
 }
 
-func cmdStore(args []string)  { cmdStoreX(args, false) }
-func cmdCommit(args []string) { cmdStoreX(args, true) }
+func cmdStore(args []string)   { cmdStoreX(args, 0) }
+func cmdCommit(args []string)  { cmdStoreX(args, 1) }
+func cmdPgStore(args []string) { cmdStoreX(args, 2) }
 
-func cmdStoreX(args []string, block bool) {
+func cmdStoreX(args []string, mode int) {
 	fs := flag.NewFlagSet("store", flag.ExitOnError)
 	seed := fs.Uint64("seed", 1, "base seed")
 	n := fs.Int("n", 10, "number of traces")
@@ -384,7 +415,7 @@ func cmdStoreX(args []string, block bool) {
 			if *exact != 0 {
 				sd = *exact
 			}
-			traces[i] = runStoreTrace(sd, *dir, *steps, block)
+			traces[i] = runStoreTrace(sd, *dir, *steps, mode == 1, mode == 2)
 		}(i)
 	}
 	wg.Wait()
@@ -396,4 +427,4 @@ func cmdStoreX(args []string, block bool) {
 	}
 }
 
-func init() { extraCmds["commit"] = cmdCommit }
+func init() { extraCmds["commit"] = cmdCommit; extraCmds["pgstore"] = cmdPgStore }
